@@ -27,7 +27,7 @@ type FlowCfg struct {
 	NoSets     bool
 	Markup     bool // some line texts carry markup
 	Random     bool // use the random built-ins (programs are then only compared with themselves)
-	BadJumps   int // percent of jumps that name a node that does not exist (a fault)
+	BadJumps   int  // percent of jumps that name a node that does not exist (a fault)
 }
 
 func DefaultFlow() FlowCfg {
